@@ -503,6 +503,20 @@ def delay_names(chk):
                         nm = _delay_name(c)
                         if isinstance(nm, ast.Constant) and isinstance(nm.value, str):
                             (arm if call_attr(c) in _ARM else use).setdefault(nm.value, []).append((m, c))
+        # fixed delay names are unique only within one DelayManager: a class that arms / cancels delays under constant names on `self.delay`
+        # owns that manager (self.delay = DelayManager(...)); on the shared machine.delay the names of all instances collide
+        if any("self.delay" == src(c.func.value) for lst in list(arm.values()) + list(use.values()) for _m, c in lst):
+            owners = []
+            for k in repo.mro(cls):
+                for m in k.methods.values():
+                    for x in ast.walk(m.node):
+                        if isinstance(x, ast.Assign) and any(src(t) == "self.delay" for t in x.targets):
+                            owners.append((m, x))
+            for m, x in owners:
+                own = isinstance(x.value, ast.Call) and src(x.value.func).split(".")[-1] == "DelayManager"
+                chk.ob("NAME-0", "%s arms delays under fixed names on a delay manager of its own" % cn, own or src(x.value) == "None", m.where(x),
+                       detail="self.delay = %s: the fixed names %s are shared with every other user of that manager" % (src(x.value), sorted(set(arm) | set(use))[:4]),
+                       construct=m.ident, text="shared delay manager with fixed names in " + cn)
         for name, sites in sorted(use.items()):
             n += 1
             m, c = sites[0]
